@@ -42,6 +42,7 @@
 //@property C19
 //@unity log
 //@flags -DENABLE_THREADS
+//@native_flags -finstrument-functions -Wno-pmf-conversions
 //@stub ^_ZNK5fcppt3log12level_stream3logE verif_level_stream_log
 //@probe ^_ZN5fcppt3log4impl10find_child verif_probe_walk
 //@probe ^_ZN5fcppt3log4impl16find_child_const verif_probe_walk
@@ -188,28 +189,90 @@
 #include "libs/core/src/time/localtime.cpp"
 #include "libs/core/src/time/std_time.cpp"
 
-// ------------------------------------------------------------------ hooks (executor only; never called natively)
+// ------------------------------------------------------------------ lock model and hooks
+// Executor: models.py keeps a held-flag per mutex (verif_locks_held), the //@probe lines call the hooks.
+// Native replay (so that a lock-discipline counterexample reproduces outside the executor): pthread_mutex_lock/unlock
+// are interposed by counting wrappers, and g++ -finstrument-functions (//@native_flags) calls
+// __cyg_profile_func_enter on every function entry, which dispatches to the same hooks for the same functions
+// (except the private context::impl::find_location_impl, whose address cannot be named from here).
+#define VERIF_NOINSTR __attribute__((no_instrument_function))
+#ifdef VERIF_NATIVE
+#include <dlfcn.h>
+#include <pthread.h>
+namespace
+{
+long native_held;
+using mutex_fn = int (*)(pthread_mutex_t *);
+VERIF_NOINSTR mutex_fn next_fn(char const *const n) { return reinterpret_cast<mutex_fn>(dlsym(RTLD_NEXT, n)); }
+VERIF_NOINSTR std::uint64_t locks_now() { return static_cast<std::uint64_t>(native_held); }
+}
+extern "C" VERIF_NOINSTR int pthread_mutex_lock(pthread_mutex_t *const m)
+{
+  static mutex_fn const real = next_fn("pthread_mutex_lock");
+  int const r = real(m);
+  if (r == 0) ++native_held;
+  return r;
+}
+extern "C" VERIF_NOINSTR int pthread_mutex_unlock(pthread_mutex_t *const m)
+{
+  static mutex_fn const real = next_fn("pthread_mutex_unlock");
+  --native_held;
+  return real(m);
+}
+#else
+namespace
+{
+std::uint64_t locks_now() { return verif_locks_held(); }
+}
+#endif
 namespace
 {
 unsigned probe_walk, probe_mutate, probe_setlevel, stub_calls;
 fcppt::log::level_stream const *stub_this;
 fcppt::log::format::optional_function const *stub_formatter;
 }
-extern "C" void verif_probe_walk(void)
+extern "C" VERIF_NOINSTR void verif_probe_walk(void)
 {
   ++probe_walk;
-  verif_assert(verif_locks_held() == 1, "context tree is searched only while the context mutex is held");
+  verif_assert(locks_now() == 1, "context tree is searched only while the context mutex is held");
 }
-extern "C" void verif_probe_mutate(void)
+extern "C" VERIF_NOINSTR void verif_probe_mutate(void)
 {
   ++probe_mutate;
-  verif_assert(verif_locks_held() == 1, "context tree is extended only while the context mutex is held");
+  verif_assert(locks_now() == 1, "context tree is extended only while the context mutex is held");
 }
-extern "C" void verif_probe_setlevel(void)
+extern "C" VERIF_NOINSTR void verif_probe_setlevel(void)
 {
   ++probe_setlevel;
-  verif_assert(verif_locks_held() == 1, "levels are rewritten only while the context mutex is held");
+  verif_assert(locks_now() == 1, "levels are rewritten only while the context mutex is held");
 }
+#ifdef VERIF_NATIVE
+namespace
+{
+using ctree = fcppt::log::detail::context_tree;
+using cnode = fcppt::log::detail::context_tree_node;
+template <typename F>
+VERIF_NOINSTR void *addr(F const f) { return (void *)f; } // GCC extension: address of a (member) function as void *
+bool in_hook;
+}
+extern "C" VERIF_NOINSTR void __cyg_profile_func_enter(void *const fn, void *)
+{
+  if (in_hook) return;
+  in_hook = true;
+  if (fn == addr(&fcppt::log::impl::find_child) || fn == addr(&fcppt::log::impl::find_child_const) ||
+      fn == addr(&fcppt::log::impl::find_or_create_child) ||
+      fn == addr(&fcppt::container::tree::pre_order<ctree>::iterator::increment))
+    verif_probe_walk();
+  else if (
+      fn == addr(static_cast<void (ctree::*)(ctree::iterator, ctree &&)>(&ctree::insert)) ||
+      fn == addr(static_cast<ctree::reference (ctree::*)(ctree &&)>(&ctree::push_back)))
+    verif_probe_mutate();
+  else if (fn == addr(static_cast<void (cnode::*)(fcppt::log::optional_level const &)>(&cnode::level)))
+    verif_probe_setlevel();
+  in_hook = false;
+}
+extern "C" VERIF_NOINSTR void __cyg_profile_func_exit(void *, void *) {}
+#endif
 // same signature as  void fcppt::log::level_stream::log(temporary_output const &, optional_function const &) const
 extern "C" void verif_level_stream_log(
     fcppt::log::level_stream const *const self,
@@ -225,12 +288,6 @@ namespace
 {
 namespace lg = fcppt::log;
 constexpr unsigned NLOC = 7, NONE_LVL = 6, MAXSETS = 8;
-
-#ifdef VERIF_NATIVE
-std::uint64_t locks_now() { return 0; } // the native run has no lock model; the executor decides these assertions
-#else
-std::uint64_t locks_now() { return verif_locks_held(); }
-#endif
 
 // locations: 0 = {} (root), 1 = {a}, 2 = {b}, 3 + 2*i + j = {name i, name j}
 char const *const names[2] = {"a", "b"};
@@ -464,9 +521,7 @@ VERIF_HARNESS(h_objects)
   do_create(5, 1 - how);
   do_set(pick("loc", 0, NLOC - 1), fresh_level("level"));
   final_checks(true);
-#ifndef VERIF_NATIVE
   verif_assert(probe_walk > 0 && probe_mutate > 0 && probe_setlevel > 0, "harness: the lock-discipline hooks were hit");
-#endif
   observe();
   teardown();
   verif_reach("objects-end");
